@@ -46,6 +46,8 @@ def mesh1d(rng, kind=None, ncell=None, nmin=3, nmax=24, x0=True, big=0.0, lscale
         return cls(ncell=nc, length=L, x0=xo), d
     if kind == "refined":
         ratio = float(np.round(rng.uniform(0.3, 3.0), 3))
+        if rng.random() < 0.1:
+            ratio = float(10 ** rng.uniform(3, 6)) ** float(rng.choice([-1, 1]))       # strongly stretched: cell sizes 1e3...1e6 apart
         a, b = int(rng.integers(1, 4)), int(rng.integers(1, 4))
         d.update(ratio=ratio, nratioa=a, nratiob=b)
         return fmesh.refinedmesh(ncell=nc, length=L, ratio=ratio, nratioa=a, nratiob=b), d
@@ -59,6 +61,11 @@ def mesh1d(rng, kind=None, ncell=None, nmin=3, nmax=24, x0=True, big=0.0, lscale
         w = rng.uniform(0.15, 1.0, nc)
         if rng.random() < 0.3:
             w[int(rng.integers(nc))] *= 8.0      # one very large cell
+        if rng.random() < 0.15:
+            # sliver cells (wall-type stretching): one or a few cells 1e-3...1e-8 times thinner than the others
+            for j in set(int(j) for j in rng.integers(0, nc, int(rng.integers(1, 3)))):
+                w[j] *= float(10 ** rng.uniform(-8, -3))
+            d["sliver_cells"] = True
         xf = np.concatenate([[0.0], np.cumsum(w)])
         xf *= L / xf[-1]
         xf[-1] = L
@@ -361,7 +368,7 @@ def _make_model(mname, rng, source=None, gamma=None, g=None, a=None, section=Non
     if mname == "burgers":
         return burgers.model(), {}
     if mname == "shallowwater":
-        g = float(g if g is not None else rng.choice([9.81, 1.0, float(np.round(rng.uniform(1, 20), 3))]))
+        g = float(g if g is not None else rng.choice([9.81, 1.0, 1.0, float(np.round(rng.uniform(1, 20), 3)), float(np.round(10 ** rng.uniform(-2, 2), 3))]))
         return shw.shallowwater1d(g=g, source=source), {"g": g}
     gam = float(gamma if gamma is not None else rng.choice([1.4, 1.4, 5.0 / 3.0, 1.2, float(np.round(rng.uniform(1.05, 2.0), 3))]))
     if mname == "euler1d":
